@@ -352,6 +352,7 @@ func checkConcE2E(c concE2ECase) *verdict {
 	}
 	defer w.Close()
 	w.AssignEven(w.Masters())
+	defer sim.ProductionRefreshRate()() // stable layout: see the function
 	px, err := sim.StartProxy(sim.ProxyOpts{Seeds: w.AllAddrs(), Compression: &redispb.Compression{Enable: true, Algorithm: redispb.Compression_SNAPPY, Threshold: c.Threshold}})
 	if err != nil {
 		return &verdict{"proxy-start", err.Error()}
